@@ -1213,12 +1213,17 @@ class CircuitTemplate(AbstractBaseTemplate):
                         out_map[key][var_key] = self._get_var_idx(var_key)
                         out_vars[var_key] = backend_key
 
+                else:
+                    raise PyRatesException(f"Output `{key}`: no variable with path `{out}` exists in this circuit.")
+
         else:
 
             # resolve the requested nodes from the frontend path; relabelling to backend (vectorized) names happens
             # per node below, it must not be applied before the path has been resolved
             *out_nodes, out_op, out_var = outputs.split('/')
             target_nodes = self.get_nodes(out_nodes, var_identifier=(out_op, out_var))
+            if not target_nodes:
+                raise PyRatesException(f"Output: no variable with path `{outputs}` exists in this circuit.")
 
             # extract index for single output node
             for t in target_nodes:
